@@ -24,7 +24,7 @@ func init() { extraGenerators["C09State.lean"] = genC09State }
 func genC09State() string {
 	fset := token.NewFileSet()
 	pkgs, err := parser.ParseDir(fset, filepath.Join(*repo, "driver", "netconf"), nil, 0)
-	var hasCapRefs, topAssigns, beforeReturn, writers []string
+	var hasCapRefs, topAssigns, beforeReturn, writers, tableWrites []string
 	foundHas, foundProc := false, false
 	recvName := func(fd *ast.FuncDecl) string {
 		if fd.Recv == nil || len(fd.Recv.List) != 1 || len(fd.Recv.List[0].Names) != 1 {
@@ -100,6 +100,42 @@ func genC09State() string {
 					}
 					return true
 				})
+				// writes to the package-level pattern table outside its constructor: `x.f = …` where x was
+				// bound to getNetconfPatterns() in this function, or is the global instance itself
+				if fd.Name.Name != "getNetconfPatterns" {
+					tbl := map[string]bool{"netconfPatternsInstance": true}
+					ast.Inspect(fd.Body, func(n ast.Node) bool {
+						as, ok := n.(*ast.AssignStmt)
+						if !ok {
+							return true
+						}
+						for k, r := range as.Rhs {
+							if call, ok := r.(*ast.CallExpr); ok {
+								if id, ok := call.Fun.(*ast.Ident); ok && id.Name == "getNetconfPatterns" && k < len(as.Lhs) {
+									if l, ok := as.Lhs[k].(*ast.Ident); ok {
+										tbl[l.Name] = true
+									}
+								}
+							}
+						}
+						for _, l := range as.Lhs {
+							if se, ok := l.(*ast.SelectorExpr); ok {
+								if id, ok := se.X.(*ast.Ident); ok && tbl[id.Name] {
+									tableWrites = append(tableWrites, fd.Name.Name+":"+se.Sel.Name)
+								}
+								if call, ok := se.X.(*ast.CallExpr); ok {
+									if id, ok := call.Fun.(*ast.Ident); ok && id.Name == "getNetconfPatterns" {
+										tableWrites = append(tableWrites, fd.Name.Name+":"+se.Sel.Name)
+									}
+								}
+							}
+							if id, ok := l.(*ast.Ident); ok && id.Name == "netconfPatternsInstance" {
+								tableWrites = append(tableWrites, fd.Name.Name+":netconfPatternsInstance")
+							}
+						}
+						return true
+					})
+				}
 				if !isDriver(fd) {
 					continue
 				}
@@ -168,6 +204,7 @@ func genC09State() string {
 	fmt.Fprintf(&b, "/-- receiver fields assigned at the top level of `processServerCapabilities` (not under a condition), in order -/\ndef procCapsTopLevelAssigns : List String := %s\n", lst(uniq(topAssigns)))
 	fmt.Fprintf(&b, "/-- ... those assigned before the first statement that can `return nil` -/\ndef procCapsAssignsBeforeSuccessReturn : List String := %s\n", lst(uniq(beforeReturn)))
 	fmt.Fprintf(&b, "/-- functions of driver/netconf (non-test) that assign a `serverCapabilities` field -/\ndef capabilityListWriters : List String := %s\n", lst(uniq(writers)))
+	fmt.Fprintf(&b, "/-- assignments `function:field` to the package-level pattern table (getNetconfPatterns()) outside its constructor -/\ndef patternTableWrites : List String := %s\n", lst(uniq(tableWrites)))
 	b.WriteString("\nend Scrapli.Gen.C09State\n")
 	return b.String()
 }
